@@ -793,3 +793,39 @@ Check llgr_scenario_full_without_no_llgr :
     has_no_llgr attrs = false ->
     llgr_scenario_full x pol emax raddr cid ps nh attrs = llgr_scenario x pol emax raddr cid ps nh attrs.
 Print Assumptions llgr_scenario_full_without_no_llgr.
+
+(* Add-Path sessions, the other direction: the ExportMap records nothing the neighbour does not
+   hold (one call). *)
+Theorem export_map_within_view_addpath :
+  forall x pol emax raddr cid c m r,
+    emax <> 1 ->
+    process_change x pol emax raddr cid c (EAddPath m) = Ok r ->
+    exists m', snd r = EAddPath m'
+      /\ forall d pid v0,
+           (In pid (ap_ids m d) -> has_entry v0 = true) ->
+           In pid (ap_ids m' d) -> has_entry (view_after (fst r) d pid v0) = true.
+Proof. exact C09_export_map_within_view_addpath. Qed.
+Check export_map_within_view_addpath :
+  forall x pol emax raddr cid c m r,
+    emax <> 1 ->
+    process_change x pol emax raddr cid c (EAddPath m) = Ok r ->
+    exists m', snd r = EAddPath m'
+      /\ forall d pid v0,
+           (In pid (ap_ids m d) -> has_entry v0 = true) ->
+           In pid (ap_ids m' d) -> has_entry (view_after (fst r) d pid v0) = true.
+Print Assumptions export_map_within_view_addpath.
+
+(* Along any history of an Add-Path session that starts with an empty map, ExportMap::sent_path_ids
+   is exactly the set of path ids the neighbour holds for the destination. *)
+Theorem export_map_exact_addpath_history :
+  forall x pol emax raddr cid cs r d pid,
+    emax <> 1 ->
+    run_changes x pol emax raddr cid cs (EAddPath []) = Ok r ->
+    (has_entry (view_after (fst r) d pid None) = true <-> was_sent_path (snd r) d pid).
+Proof. exact C09_export_map_exact_addpath_history. Qed.
+Check export_map_exact_addpath_history :
+  forall x pol emax raddr cid cs r d pid,
+    emax <> 1 ->
+    run_changes x pol emax raddr cid cs (EAddPath []) = Ok r ->
+    (has_entry (view_after (fst r) d pid None) = true <-> was_sent_path (snd r) d pid).
+Print Assumptions export_map_exact_addpath_history.
